@@ -1,15 +1,15 @@
 """C07 — coroutine mutex: mutual exclusion and exactly-once grant (mutex.h, awaiter.h)."""
 from props import mutexcommon
-RULE = ("controlled schedules (real threads, one runnable at a time, yield at every COCLS_VERIF_POINT of mutex.h, at the blocking "
+RULE = ("controlled schedules (real threads, one runnable at a time; the harness supplies std::atomic<awaiter*>, so EVERY atomic operation on mutex::_requests is a scheduling point, marked by the library or not; further points: m_pub, the blocking "
         "flag wait, inside the critical section and at every round boundary) of 2-4 contenders (coroutines / blocking threads), 1-3 rounds "
         "each, acquisition by co_await lock() / lock().wait() / try_lock(), release by ownership destruction / release() discarded / "
-        "co_await release(); random, bursty, highest-first and sparse-preemption schedules, a malformed-declaration stream, and directed schedules (all interleavings of a release with a request in flight, try_lock racing unlock, two late arrivals between an owner's publishing CAS and its build_queue with 4 contenders, 4 parties on 3 threads with a thread still in await_suspend, the same schedule under every release flavour and every blocking/coroutine mix); thorough adds "
+        "co_await release(); random, bursty, highest-first and sparse-preemption schedules, a malformed-declaration stream, and directed schedules (all interleavings of a release with a request in flight, try_lock racing unlock, two late arrivals between an owner's publishing CAS and its build_queue with 4 contenders, 4 parties on 3 threads with a thread still in await_suspend, retry windows (other contenders complete whole operations between two adjacent atomic operations of a requester), the same schedule under every release flavour and every blocking/coroutine mix); thorough adds "
         "every schedule prefix of length 13 (2 contenders x 2 rounds) / 9 (3 x 1) and all pairs of single-step preemptions; "
         "non-trivial = at least 3 OS-thread switches in the executed trace; distinct = distinct (contenders, schedule)")
 SCOPE = ("mutex::ready/subscribe/build_queue/unlock/try_lock/lock, mutex::ownership (deleter, release), co_awaiter<mutex> "
          "await_ready/await_suspend/await_resume/sync/wait, sync_awaiter, coro_queue resume/flush_queue/install_queue_and_call, "
          "suspend_point<void> destructor and await_suspend as used by the mutex")
-ASSUMPTIONS = ["interleaving at the granularity of the hook points (each atomic operation on mutex::_requests is its own step; the code "
+ASSUMPTIONS = ["interleaving at the granularity of atomic operations (each load / exchange / compare_exchange on mutex::_requests is its own step, independent of hook placement; the code "
                "between two points, including the build_queue loop on the detached chain, is one step); sequentially consistent",
                "a blocking lock().wait() is only issued from a plain thread (the library asserts this), co_await only from coroutines"]
 def gen(seed, tier): return mutexcommon.gen(seed, tier, "mutex")
